@@ -585,7 +585,7 @@ def corpus():
 
 
 QUICK = {"prim": 3000, "msg": 900, "req": 4200, "flow": 300, "version": 120, "big": 1 << 16}
-THOROUGH_SHARD = {"prim": 4000, "msg": 1200, "req": 4500, "flow": 400, "version": 150, "big": 1 << 20}
+THOROUGH_SHARD = {"prim": 3000, "msg": 1000, "req": 3800, "flow": 350, "version": 120, "big": 1 << 20}
 
 
 def _shard(args):
